@@ -114,12 +114,15 @@ def _zeq(pyvc, z3, a, b):
     return na == nb
 
 
+class _Over(Exception):
+    pass
+
+
 def job(a):
-    from ..bounded import Budget, time_budget
+    """cooperative 45 s budget per program (checked between solver calls - no alarm: an alarm firing inside a z3 ctypes call is not catchable cleanly)"""
     try:
-        with time_budget(45):
-            return _job(a)
-    except Budget:
+        return _job(a)
+    except _Over:
         origin, src = a
         key = hashlib.sha1(src.encode()).hexdigest()[:10]
         return [dict(name=f"C01.T.ast2ast.preserves-python-meaning[{origin},{key}]", status="x", strength="aux", backend="pyvc", secs=0, program=src,
@@ -157,8 +160,8 @@ def _job(a):
     eng = pyvc.Engine()
     eng.opaque_symbols = False
     try:
-        p0 = eng.explore(lambda vc: (f0, list(args), {}), max_paths=300)
-        p1 = eng.explore(lambda vc: (f1, list(args), {}), max_paths=300)
+        p0 = eng.explore(lambda vc: (f0, list(args), {}), max_paths=200)
+        p1 = eng.explore(lambda vc: (f1, list(args), {}), max_paths=200)
     except pyvc.Unsupported as ex:
         return [dict(skip, why=f"outside pyvc's symbolic subset: {ex}"[:140])]
     except RecursionError:
@@ -169,6 +172,8 @@ def _job(a):
     pairs = 0
     for a_ in ok0:
         for b_ in p1:
+            if time.time() - t0 > 45:
+                raise _Over()
             hy = hyps + a_.hyps() + b_.hyps()
             if b_.kind != "return":
                 if isinstance(b_.value, (NameError, UnboundLocalError)):
